@@ -1,0 +1,193 @@
+// Runtime-monitoring hooks. Compiled only with `--cfg pest_parser_pest_verif`.
+//
+// Everything here is observation only: a thread-local, append-only event sink that the
+// parser state reports to, plus read-only snapshots of otherwise private state.
+// With the cfg flag absent none of this exists.
+
+#![allow(missing_docs)]
+
+extern crate std;
+
+use alloc::string::String;
+use alloc::vec::Vec;
+use std::cell::{Cell, RefCell};
+
+/// One observed event. Rules are recorded through their `Debug` rendering.
+#[derive(Clone, Debug, PartialEq, Eq)]
+pub enum Event {
+    /// `ParserState::rule` was entered.
+    RuleEnter {
+        rule: String,
+        pos: usize,
+        lookahead: u8,
+        atomicity: u8,
+    },
+    /// `ParserState::rule` is about to return.
+    RuleExit {
+        rule: String,
+        ok: bool,
+        start: usize,
+        end: usize,
+        lookahead: u8,
+        atomicity: u8,
+    },
+    /// One iteration of `ParserState::repeat` succeeded.
+    RepeatIter { before: usize, after: usize },
+    /// The call limit refused a call (`count` calls had been made).
+    CallRefused { count: usize },
+    /// The VM entered a rule (any rule, including silent and built-in ones).
+    VmRuleEnter { rule: String, pos: usize },
+    /// The VM left the rule entered by the matching `VmRuleEnter`.
+    VmRuleExit,
+}
+
+/// What `pest::state` saw when the closure returned.
+#[derive(Clone, Debug, PartialEq, Eq, Default)]
+pub struct Final {
+    pub ok: bool,
+    pub pos: usize,
+    pub attempt_pos: usize,
+    pub stack: Vec<String>,
+    /// Calls counted by the call-limit tracker (0 when no limit is set).
+    pub calls: usize,
+    pub limit: usize,
+    pub queue_len: usize,
+}
+
+/// Read-only copy of a `ParserState`.
+#[derive(Clone, Debug, PartialEq, Eq, Default)]
+pub struct Snapshot {
+    pub pos: usize,
+    /// (is_start, input_pos, rule (End only), tag (End only), index of the peer token)
+    pub queue: Vec<(bool, usize, Option<String>, Option<String>, usize)>,
+    pub stack: Vec<String>,
+    pub stack_snapshots: usize,
+    pub lookahead: u8,
+    pub atomicity: u8,
+    pub attempt_pos: usize,
+    pub pos_attempts: Vec<String>,
+    pub neg_attempts: Vec<String>,
+    pub calls: usize,
+}
+
+std::thread_local! {
+    static ENABLED: Cell<bool> = const { Cell::new(false) };
+    static CAP: Cell<usize> = const { Cell::new(usize::MAX) };
+    static OVERFLOW: Cell<bool> = const { Cell::new(false) };
+    static PANIC_ON_STUCK_REPEAT: Cell<bool> = const { Cell::new(false) };
+    static EVENTS: RefCell<Vec<Event>> = const { RefCell::new(Vec::new()) };
+    static LAST_FINAL: RefCell<Option<Final>> = const { RefCell::new(None) };
+    static VM_OPEN: RefCell<Vec<(String, usize)>> = const { RefCell::new(Vec::new()) };
+    static VM_REENTRY: RefCell<Option<(String, usize)>> = const { RefCell::new(None) };
+}
+
+/// Starts (or stops) recording on this thread; clears what was recorded.
+pub fn enable(on: bool) {
+    ENABLED.with(|e| e.set(on));
+    EVENTS.with(|e| e.borrow_mut().clear());
+    OVERFLOW.with(|o| o.set(false));
+    VM_OPEN.with(|o| o.borrow_mut().clear());
+    VM_REENTRY.with(|o| *o.borrow_mut() = None);
+    LAST_FINAL.with(|f| *f.borrow_mut() = None);
+}
+
+/// At most `cap` events are kept; `overflowed()` tells whether more arrived.
+pub fn set_cap(cap: usize) {
+    CAP.with(|c| c.set(cap));
+}
+
+pub fn overflowed() -> bool {
+    OVERFLOW.with(|o| o.get())
+}
+
+pub fn is_enabled() -> bool {
+    ENABLED.with(|e| e.get())
+}
+
+/// When set, a `repeat` iteration that succeeds without moving panics with the
+/// payload `"pest-verif: stuck repeat"` instead of looping forever.
+pub fn panic_on_stuck_repeat(on: bool) {
+    PANIC_ON_STUCK_REPEAT.with(|p| p.set(on));
+}
+
+pub fn take_events() -> Vec<Event> {
+    EVENTS.with(|e| core::mem::take(&mut *e.borrow_mut()))
+}
+
+pub fn last_final() -> Option<Final> {
+    LAST_FINAL.with(|f| f.borrow().clone())
+}
+
+/// First VM rule entry that found the same rule already open at the same position.
+pub fn vm_reentry() -> Option<(String, usize)> {
+    VM_REENTRY.with(|r| r.borrow().clone())
+}
+
+#[inline]
+pub fn emit(ev: impl FnOnce() -> Event) {
+    if !is_enabled() {
+        return;
+    }
+    EVENTS.with(|e| {
+        let mut e = e.borrow_mut();
+        if e.len() < CAP.with(|c| c.get()) {
+            e.push(ev());
+        } else {
+            OVERFLOW.with(|o| o.set(true));
+        }
+    });
+}
+
+pub(crate) fn set_final(f: impl FnOnce() -> Final) {
+    if is_enabled() {
+        LAST_FINAL.with(|l| *l.borrow_mut() = Some(f()));
+    }
+}
+
+pub(crate) fn repeat_iter(before: usize, after: usize) {
+    if !is_enabled() {
+        return;
+    }
+    emit(|| Event::RepeatIter { before, after });
+    if before == after && PANIC_ON_STUCK_REPEAT.with(|p| p.get()) {
+        std::panic::panic_any("pest-verif: stuck repeat");
+    }
+}
+
+/// Guard returned by [`vm_rule_guard`]; reports the exit when dropped.
+pub struct VmRuleGuard(bool);
+
+/// Called by the VM at the top of `parse_rule`.
+pub fn vm_rule_guard(rule: &str, pos: usize) -> VmRuleGuard {
+    if !is_enabled() {
+        return VmRuleGuard(false);
+    }
+    VM_OPEN.with(|o| {
+        let mut o = o.borrow_mut();
+        if o.iter().any(|(r, p)| *p == pos && r == rule) {
+            VM_REENTRY.with(|r| {
+                let mut r = r.borrow_mut();
+                if r.is_none() {
+                    *r = Some((String::from(rule), pos));
+                }
+            });
+        }
+        o.push((String::from(rule), pos));
+    });
+    emit(|| Event::VmRuleEnter {
+        rule: String::from(rule),
+        pos,
+    });
+    VmRuleGuard(true)
+}
+
+impl Drop for VmRuleGuard {
+    fn drop(&mut self) {
+        if self.0 && is_enabled() {
+            VM_OPEN.with(|o| {
+                o.borrow_mut().pop();
+            });
+            emit(|| Event::VmRuleExit);
+        }
+    }
+}
